@@ -690,8 +690,11 @@ class cma_protocol:
         self.ask0, self.tell0 = self.cls.ask, self.cls.tell
         log = self.log = {}
         ask0, tell0 = self.ask0, self.tell0
+        alive = self.alive = []  # every strategy object seen stays alive: `id(es)` is never reused inside the context
 
         def ask(es, *a, **k):
+            if id(es) not in log:
+                alive.append(es)
             out = ask0(es, *a, **k)
             log.setdefault(id(es), []).append(("ask", [tuple(float(t) for t in x) for x in out]))
             return out
@@ -714,7 +717,9 @@ def c11_cma(run, log):
     out = []
     by_es = {id(getattr(d, "_cma_es", None)): did for did, d in run.deme_objs.items() if getattr(d, "_cma_es", None) is not None}
     for key, seq in log.items():
-        did = by_es.get(key, "?")
+        if key not in by_es:
+            continue  # a strategy of another tree of the process (a mechanism's earlier user), not of this run
+        did = by_es[key]
         last_ask = None
         told = True  # nothing to tell before the first ask
         for k, (op, xs) in enumerate(seq):
